@@ -24,26 +24,25 @@ Theorem C16_order : forall pl cs, proto_ok (trace_of (run true pl cs)).
 Proof. exact (order true). Qed.
 Print Assumptions C16_order.
 
-(* The same read as "happened before and was not undone since". *)
+(* The same read as "happened before and was not undone since".  TLParamsLocked is written through its
+   register ([SetTLParamsLocked b]) or, where the description keeps it on the host side, as a variable of
+   the context ([HostTL b]): [tl_since b p] = it was given the value b and not the other value since. *)
 Theorem C16_order_before : forall pl cs p q,
   (trace_of (run true pl cs) = p ++ AcqStart :: q ->
-     since EnableStreaming DisableStreaming p /\
-     since (SetTLParamsLocked true) (SetTLParamsLocked false) p) /\
+     since EnableStreaming DisableStreaming p /\ tl_since true p) /\
   (trace_of (run true pl cs) = p ++ LoopStart :: q ->
-     since EnableStreaming DisableStreaming p /\
-     since (SetTLParamsLocked true) (SetTLParamsLocked false) p /\
+     since EnableStreaming DisableStreaming p /\ tl_since true p /\
      since AcqStart AcqStop p /\
      (In LoopStart p -> since LoopStop LoopStart p)) /\
   (trace_of (run true pl cs) = p ++ AcqStop :: q ->
      In LoopStart p -> since LoopStop LoopStart p) /\
-  (trace_of (run true pl cs) = p ++ SetTLParamsLocked false :: q ->
+  (forall e, tl_write false e -> trace_of (run true pl cs) = p ++ e :: q ->
      (In LoopStart p -> since LoopStop LoopStart p) /\
      (In AcqStart p -> since AcqStop AcqStart p)) /\
   (trace_of (run true pl cs) = p ++ DisableStreaming :: q ->
      (In LoopStart p -> since LoopStop LoopStart p) /\
      (In AcqStart p -> since AcqStop AcqStart p) /\
-     (In (SetTLParamsLocked true) p ->
-        since (SetTLParamsLocked false) (SetTLParamsLocked true) p)).
+     ((exists e, In e p /\ tl_write true e) -> tl_since false p)).
 Proof. exact (order_before true). Qed.
 Print Assumptions C16_order_before.
 
@@ -136,18 +135,19 @@ Print Assumptions C16_start_without_context_v0.
    every call, state and effect.) *)
 (* Failure stops the call: in any state, if operation j is the first the plan fails — with a fault of
    ANY class cls (Io, Timeout, Disconnected, Busy, NotOpened, ...) — and the call reaches it, the call
-   returns the error of exactly that operation carrying exactly that class, its effects are exactly the
-   first j effects of the failure-free execution (nothing of the later sub-operations), the device log
-   is those j accesses followed by the ONE failed attempt, and j + 1 operations were attempted (no
-   second attempt of the failed access, no later access). *)
+   returns the error of exactly that operation (the j-th access e of the failure-free device log) carrying
+   exactly that class, its effects are exactly the effects of the failure-free execution that precede e
+   (nothing of the later sub-operations; host-side steps such as the write of a host-side TLParamsLocked
+   are effects without being accesses), the device log is the first j accesses followed by the ONE failed
+   attempt, and j + 1 operations were attempted (no second attempt of the failed access, no later access). *)
 Theorem C16_failure_stops : forall c plc s j cls,
   first_fail plc j cls ->
   (j < r_nops (run_call true c (fun _ => None) s))%nat ->
-  exists e, nth_error (r_effs (run_call true c (fun _ => None) s)) j = Some e /\
+  exists e, nth_error (r_atts (run_call true c (fun _ => None) s)) j = Some e /\
     r_failed (run_call true c plc s) = Some (e, cls) /\
     r_res (run_call true c plc s) = Err (err_of e cls) /\
-    r_effs (run_call true c plc s) = firstn j (r_effs (run_call true c (fun _ => None) s)) /\
-    r_atts (run_call true c plc s) = firstn j (r_effs (run_call true c (fun _ => None) s)) ++ [e] /\
+    (exists q, r_effs (run_call true c (fun _ => None) s) = r_effs (run_call true c plc s) ++ e :: q) /\
+    r_atts (run_call true c plc s) = firstn j (r_atts (run_call true c (fun _ => None) s)) ++ [e] /\
     r_nops (run_call true c plc s) = S j.
 Proof. exact (failure_stops true). Qed.
 Print Assumptions C16_failure_stops.
@@ -201,7 +201,11 @@ Theorem C16_start_cap0 : forall plc s c0,
   (forall j, plc j = None) ->
   r_res (run_call true (CStart 0) plc s) = Panic /\
   r_effs (run_call true (CStart 0) plc s) =
-    [EnableStreaming; SetTLParamsLocked true] ++ (if n_copy c0 then [CopyTL true] else []) ++ [AcqStart] /\
+    EnableStreaming ::
+    match h_tl c0 with
+    | Some _ => [HostTL true]
+    | None => SetTLParamsLocked true :: (if n_copy c0 then [CopyTL true] else [])
+    end ++ [AcqStart] /\
   loop_running (r_cam (run_call true (CStart 0) plc s)) = false.
 Proof. exact (start_cap0 true). Qed.
 Print Assumptions C16_start_cap0.
@@ -210,7 +214,7 @@ Print Assumptions C16_start_cap0.
 Theorem C16_session_example :
   let rs := run true no_failure [COpen; CLoad xml_good; CStart 3; CParams; CStop; CClose] in
   trace_of rs =
-    [CtrlOpen; StrmOpen; GenApiFetch; LoadCtxt true true true false;
+    [CtrlOpen; StrmOpen; GenApiFetch; LoadCtxt true true true false false false;
      EnableStreaming; SetTLParamsLocked true; AcqStart; LoopStart;
      LoopStop; AcqStop; SetTLParamsLocked false; DisableStreaming;
      CtrlClose; StrmClose; ClearCache] /\
@@ -222,7 +226,7 @@ Print Assumptions C16_session_example.
 Theorem C16_failure_example :
   let rs := run true (plan_of [(2%nat, 2%nat, 1)]) [COpen; CLoad xml_good; CStart 3] in
   map r_res rs = [Ok (-1); Ok (-1); Err (E_GENAPI_DEVICE + 1)] /\
-  trace_of rs = [CtrlOpen; StrmOpen; GenApiFetch; LoadCtxt true true true false;
+  trace_of rs = [CtrlOpen; StrmOpen; GenApiFetch; LoadCtxt true true true false false false;
                  EnableStreaming; SetTLParamsLocked true] /\
   loop_running (final rs) = false.
 Proof. exact failure_example. Qed.
@@ -230,10 +234,11 @@ Print Assumptions C16_failure_example.
 
 (* Cached register values: whenever a params access returns a value it is the device's
    TLParamsLocked — the context never serves a stale cached value, whatever failed before
-   (a failing register write leaves both the register and the cache as they were). *)
+   (a failing register write leaves both the register and the cache as they were); where the
+   description keeps TLParamsLocked on the host side it is that variable ([tl_value]). *)
 Theorem C16_params_value : forall pl cs plc v,
   r_res (run_call true CParams plc (final (run true pl cs))) = Ok v ->
-  v = Z.b2z (tl_locked (final (run true pl cs))).
+  v = Z.b2z (tl_value (final (run true pl cs))).
 Proof. exact (params_value true). Qed.
 Print Assumptions C16_params_value.
 
@@ -319,7 +324,7 @@ Print Assumptions C16_copy_failure_stops.
 Theorem C16_copy_example :
   let cs := [COpen; CLoad xml_copy; CStart 3; CStop; CClose] in
   trace_of (run true no_failure cs) =
-    [CtrlOpen; StrmOpen; GenApiFetch; LoadCtxt true true true true;
+    [CtrlOpen; StrmOpen; GenApiFetch; LoadCtxt true true true true false false;
      EnableStreaming; SetTLParamsLocked true; CopyTL true; AcqStart; LoopStart;
      LoopStop; AcqStop; SetTLParamsLocked false; CopyTL false; DisableStreaming;
      CtrlClose; StrmClose; ClearCache] /\
@@ -344,3 +349,59 @@ Theorem C16_close_clean_copy : forall pl cs,
   tl_copy (final (run true pl (cs ++ [CClose]))) = false.
 Proof. exact close_clean_copy. Qed.
 Print Assumptions C16_close_clean_copy.
+
+(* ---- TLParamsLocked on the host side; command values; availability of the commands ---------- *)
+
+(* When every description loaded keeps TLParamsLocked in its register, the register holds what
+   TLParamsLocked was given last ([tl_feat], the TLParamsLocked of the protocol and of [clean]) --
+   under every failure plan; so after a clean close the device register is 0. *)
+Theorem C16_register_is_feature : forall pl cs,
+  Forall reg_call cs -> tl_locked (final (run true pl cs)) = tl_feat (final (run true pl cs)).
+Proof. exact (register_is_feature true). Qed.
+Print Assumptions C16_register_is_feature.
+
+Theorem C16_close_clean_reg : forall pl cs,
+  (forall i j, pl i j = None) -> Forall good_call cs -> Forall reg_call cs ->
+  tl_locked (final (run true pl (cs ++ [CClose]))) = false.
+Proof. exact close_clean_reg. Qed.
+Print Assumptions C16_close_clean_reg.
+
+(* Non-vacuity: TLParamsLocked as a host-side variable, AcquisitionStop with CommandValue 0: the
+   variable is written between EnableStreaming and AcquisitionStart without any device access, a params
+   access reads it, close leaves everything clean. *)
+Theorem C16_host_example :
+  let rs := run true no_failure [COpen; CLoad xml_host; CStart 3; CParams; CStop; CParams; CClose] in
+  trace_of rs =
+    [CtrlOpen; StrmOpen; GenApiFetch; LoadCtxt true true true false true true;
+     EnableStreaming; HostTL true; AcqStart; LoopStart;
+     LoopStop; AcqStop; HostTL false; DisableStreaming;
+     CtrlClose; StrmClose; ClearCache] /\
+  map r_res rs = [Ok (-1); Ok (-1); Ok (-1); Ok 1; Ok (-1); Ok 0; Ok (-1)] /\
+  map r_atts rs = [[CtrlOpen; StrmOpen]; [GenApiFetch]; [EnableStreaming; AcqStart; LoopStart]; [];
+                   [LoopStop; AcqStop; DisableStreaming]; []; [CtrlClose; StrmClose]] /\
+  clean (final rs).
+Proof. exact host_example. Qed.
+Print Assumptions C16_host_example.
+
+(* No device operation fails => no error: after any session within the property's quantifier, under a
+   plan that fails nothing, open / stop_streaming / close return Ok, and start_streaming returns Ok or
+   is refused for one of the two documented reasons (InStreaming, GenApiContextMissing) -- whatever the
+   device does to its own memory in between ([CPoke] calls of the session, among them the availability
+   registers that some descriptions attach to AcquisitionStart / AcquisitionStop with <pIsAvailable>:
+   CommandNode::execute does not consult them). *)
+Theorem C16_no_failure_no_error : forall pl cs c,
+  (forall i j, pl i j = None) -> Forall good_call cs -> good_call c ->
+  run true pl (cs ++ [c]) = run true pl cs ++ [run_call true c (pl (length cs)) (final (run true pl cs))] /\
+  match c with
+  | COpen | CStop | CClose | CPoke _ _ =>
+      r_res (run_call true c (pl (length cs)) (final (run true pl cs))) = Ok (-1)
+  | CStart _ =>
+      r_res (run_call true c (pl (length cs)) (final (run true pl cs))) = Ok (-1) \/
+      (loop_running (final (run true pl cs)) = true /\
+       r_res (run_call true c (pl (length cs)) (final (run true pl cs))) = Err E_IN_STREAMING) \/
+      (loop_running (final (run true pl cs)) = false /\ ctxt (final (run true pl cs)) = None /\
+       r_res (run_call true c (pl (length cs)) (final (run true pl cs))) = Err E_CTXT_MISSING)
+  | _ => True
+  end.
+Proof. exact no_failure_no_error. Qed.
+Print Assumptions C16_no_failure_no_error.
